@@ -1263,6 +1263,10 @@ class Shape:
             return elem_of(a) if not is_unk(a) else UNK
         el = a.elem
         if axis is None:
+            # a full reduction reduces every axis: same provenance as reducing them one after the other
+            if isinstance(el, Q) and how in ('sum', 'max', 'min', 'mean') and not any(is_unk(x) for x in a.axes):
+                tags = el.tags | {'%s:%s' % (how, x) for x in a.axes}
+                return Q(qmul(el, CNT).dim if how == 'sum' else el.dim, tags)
             if isinstance(el, Q) and how == 'sum':
                 return Q(qmul(el, CNT).dim, el.tags)
             return el
@@ -1310,7 +1314,8 @@ class Shape:
         for g in e.generators:
             it = self.ev(g.iter, env2)
             self.bind(g.target, self.iter_elem(it), env2)
-            ax = it.axis if isinstance(it, ListT) else (it.axes[0] if isinstance(it, Arr) and it.axes else None)
+            # a list without a named axis gets the one np.array() would give it, so that parallel comprehensions over the same list agree
+            ax = (it.axis or Space('ListAx', it.vid)) if isinstance(it, ListT) else (it.axes[0] if isinstance(it, Arr) and it.axes else None)
             for c in g.ifs:
                 self.ev(c, env2)
             if g.ifs:
